@@ -104,8 +104,6 @@ def o_ops(spec):
     r2 = must(lambda: reverse_qubit_order(r1, n_qubits=n), "reverse_qubit_order twice")
     R2 = _mat(pgen.canon_of(r2), n)
     require(np.max(np.abs(R2 - R)) <= 1e-10 * scale, "reversing the qubit order twice is not the identity")
-    if op.n_qubits > 0 and n > 0:
-        must_raise(ValueError, lambda: reverse_qubit_order(op, n_qubits=op.n_qubits - 1), "reverse_qubit_order with too few qubits")
     # expectation values
     rs = np.random.RandomState(spec["sseed"])
     psi = rs.normal(size=2 ** n) + 1j * rs.normal(size=2 ** n)
